@@ -1,5 +1,9 @@
 /- Helper lemmas for C01: container round trip. -/
 import Preflate.Model.Container
+import Preflate.Proofs.ContainerVarint
+import Preflate.Proofs.ContainerIdat
+import Preflate.Proofs.ContainerChunks
+import Preflate.Proofs.ContainerScan
 namespace Preflate.Proofs
 open Preflate
 
@@ -8,6 +12,12 @@ theorem recreate_expand (o : Oracle) (crc : Bytes → Nat) (f : Bytes)
     (hpanic : ∀ d m, o.verified d ≠ .error (.panic m))
     (hsize : ∀ d r, o.verified d = .ok r → r.plain.length < 2 ^ 32 ∧ r.corr.length < 2 ^ 32) :
     ∃ c, expand o crc f = .ok c ∧ recreate o crc c = .ok f := by
-  sorry
+  obtain ⟨chunks, hscan, hcov⟩ := scanLoop_spec o crc f hb hf hpanic (f.length + 1) 0 0
+    (Nat.le_refl _) (Nat.zero_le _) (by omega) (by omega)
+  obtain ⟨w, hw, hr⟩ := readChunks_write o crc f hb hf hsize chunks 0 hcov
+  refine ⟨Gen.WRAPPER_VERSION :: w, ?_, ?_⟩
+  · simp only [expand, scan, hscan, hw, bind_ok]
+  · simp only [recreate, ne_eq, not_true_eq_false, if_false]
+    exact hr _ (Nat.le_refl _)
 
 end Preflate.Proofs
